@@ -337,6 +337,17 @@ func TestC11(t *testing.T) {
 	res := behav.NewResult()
 	defer res.Write()
 	if raw, ok := behav.LoadReplay(); ok {
+		var hc HCase
+		if err := json.Unmarshal(raw, &hc); err == nil && hc.N > 0 && len(hc.Prim) > 0 {
+			h, err := newHClus(t, hc.N, len(hc.Prim))
+			if err != nil {
+				res.SetInconclusive("cluster: " + err.Error())
+				return
+			}
+			defer h.close()
+			driveH(res, h, &hc)
+			return
+		}
 		var cs Case
 		if err := json.Unmarshal(raw, &cs); err != nil {
 			res.SetInconclusive("unreadable replay payload")
@@ -353,7 +364,19 @@ func TestC11(t *testing.T) {
 	}
 	seed := behav.Seed()
 	byR := map[int][]*Case{}
+	byN := map[int][]*HCase{}
 	for i, b := range behav.LoadEnv() {
+		if len(b) == 1 && b[0].Str("op") == "Holder" {
+			js, _ := json.Marshal(b[0])
+			var hc HCase
+			if err := json.Unmarshal(js, &hc); err != nil || hc.N < 3 || len(hc.Prim) == 0 || len(hc.Init) != len(hc.Prim) {
+				res.SetInconclusive("malformed holder configuration " + string(js))
+				return
+			}
+			hc.Profile = int((seed + int64(i)) % int64(len(profiles)))
+			byN[hc.N] = append(byN[hc.N], &hc)
+			continue
+		}
 		cs, err := caseOf(b)
 		if err != nil {
 			res.SetInconclusive(err.Error())
@@ -364,6 +387,19 @@ func TestC11(t *testing.T) {
 			cs.Corrupt = true
 		}
 		byR[cs.R] = append(byR[cs.R], cs)
+	}
+	for n, cases := range byN {
+		h, err := newHClus(t, n, len(cases[0].Prim))
+		if err != nil {
+			res.SetInconclusive("cluster: " + err.Error())
+			return
+		}
+		for _, hc := range cases {
+			if !driveH(res, h, hc) {
+				break
+			}
+		}
+		h.close()
 	}
 	max := behav.EnvInt("VERIF_MAXCASES", 0)
 	for r, cases := range byR {
@@ -433,6 +469,52 @@ func drive(res *behav.Result, cl *clus, cs *Case) bool {
 	}
 	if mm != nil {
 		res.Fail(behav.Failure{Match: mm.match, Detail: mm.detail, Replay: cs})
+	}
+	return true
+}
+
+// driveH runs one holder-level case; it reports false when the cluster can no longer be used.
+func driveH(res *behav.Result, h *hclus, hc *HCase) bool {
+	var mm *mismatch
+	var err error
+	pv, stack := behav.Protect(func() { mm, err = runHCase(h, hc) })
+	if pv != nil {
+		if !behav.PanicInCode(stack) {
+			res.SetInconclusive(fmt.Sprintf("harness panic: %v\n%s", pv, stack))
+			return false
+		}
+		res.Fail(behav.Failure{Match: map[string]string{"symptom": "panic", "n": fmt.Sprint(hc.N), "replicas": "2"},
+			Detail: fmt.Sprintf("panic during the pass: %v\n%s", pv, stack), Replay: hc})
+		return false
+	}
+	if err != nil {
+		res.SetInconclusive("harness: " + err.Error())
+		return false
+	}
+	res.CountEval()
+	res.Cover(fmt.Sprintf("nodes:%d,replicas:2", hc.N))
+	nontrivial, sawUnowned := false, false
+	for j := range hc.Prim {
+		if hc.Owned[j] {
+			res.Cover("shard_owned")
+			if sawUnowned {
+				res.Cover("owned_shard_after_unowned_shard")
+			}
+			for k := 0; k < 4; k++ {
+				if hc.Init[j][0][k] != hc.Init[j][1][k] {
+					nontrivial = true
+				}
+			}
+		} else {
+			res.Cover("shard_unowned")
+			sawUnowned = true
+		}
+	}
+	if nontrivial {
+		res.CountNontrivial()
+	}
+	if mm != nil {
+		res.Fail(behav.Failure{Match: mm.match, Detail: mm.detail, Replay: hc})
 	}
 	return true
 }
